@@ -1,12 +1,15 @@
 package main
 
 import (
+	"bytes"
+	"fmt"
 	"strconv"
 	"strings"
 	"time"
 
 	soy "github.com/robfig/soy"
 	"github.com/robfig/soy/data"
+	"github.com/robfig/soy/soyhtml"
 )
 
 // C06extra: corners of "rendering any compiled bundle with any data returns output or an error" that need
@@ -300,6 +303,41 @@ func directC06extra(g *G, rep *Report) {
 			}
 			if len(rep.Violations) >= 3 {
 				break
+			}
+		}
+	}
+	// 5. Tofu.Render with Go values the converter cannot take (arrays, maps with non-string keys, funcs, channels,
+	// complex numbers), at the top level and nested in maps, slices and structs: an error, never a panic
+	{
+		reg, err := compileBundle([]srcFile{{"gv.soy", "{namespace gv}\n/** @param? v */\n{template .t}\n[{$v}]\n{/template}\n"}})
+		if err == nil {
+			tofu := soyhtml.NewTofu(reg)
+			type withArr struct {
+				ID  [4]byte
+				Fn  func()
+				Any interface{}
+			}
+			vals := []interface{}{[3]int{1, 2, 3}, map[int]string{1: "a"}, map[interface{}]interface{}{"name": "bob"}, func() {}, make(chan int), complex(1, 2), uintptr(7),
+				withArr{}, &withArr{Any: [2]string{"a", "b"}}, []interface{}{[1]int{1}}, map[string]interface{}{"k": map[bool]int{true: 1}}, struct{ C chan int }{}, []func(){nil}}
+			for _, v := range vals {
+				for _, obj := range []interface{}{v, map[string]interface{}{"v": v}, map[string]interface{}{"v": []interface{}{v}}} {
+					var rerr error
+					c := guarded(5*time.Second, func() { rerr = tofu.Render(&bytes.Buffer{}, "gv.t", obj) })
+					rep.Evaluations++
+					cls := c
+					if c == "" {
+						cls = "OK"
+						if rerr != nil {
+							cls = "ERR"
+						}
+					}
+					rep.Distribution["go-value:"+cls]++
+					if c != "" {
+						viol("go-value-"+c+":"+fmt.Sprintf("%T", v), "Tofu.Render handed a Go value of type "+fmt.Sprintf("%T", obj)+" does not return normally: "+c, fmt.Sprintf("%#v", obj), c)
+					} else {
+						rep.DistinctNT++
+					}
+				}
 			}
 		}
 	}
